@@ -24,7 +24,7 @@ RULE = ('histories = breadth-first search over requests {to_graph, convert() wra
         'copy without defaults, redefined function, collected function, lambda} x option values {two equal-but-distinct, one '
         'different}; state = set of (code label, options label) in the cache; schedules = 2 threads x 1-2 requests and 3 '
         'threads x 1 request on colliding keys with <= 2 preemptions (identity transform) / <= 1 (real transpiler)')
-ASSUMPTIONS = ['scheduling points = every traced line of pyct/transpiler.py (outside transform_ast), pyct/cache.py and the cache lock; '
+ASSUMPTIONS = ['scheduling points = every traced line of pyct/transpiler.py (outside transform_ast and the pure helper _identifiers_of, which only reads the thread-owned tree), pyct/cache.py and the cache lock; '
                'the converter passes inside the lock touch no shared state',
                'reference model = dict keyed by (code object identity class, options value)']
 
@@ -58,6 +58,16 @@ def loopfns():
 
 
 lam = lambda a, b=%(dflt)s: (a, b, GV, %(uid)d + 3) if a > 100 else (a + 0, b, GV, %(uid)d + 3)
+
+
+class K(object):
+    def __init__(self, tag):
+        self.tag = tag
+
+    def m(self, a, b=%(dflt)s):
+        if a > 100:
+            a = a - 100
+        return (a, b, GV, %(uid)d + 4, self.tag)
 '''
 
 _S = {'tier': 'quick'}
@@ -119,12 +129,19 @@ class Pools(object):
         'nodef': types.FunctionType(m1.plain.__code__, m1.__dict__, 'plain'),   # shares code with glob1, has NO defaults
         'lam': m1.lam,
     }
+    # bound methods of two instances: one code object; a NEW bound-method object is made for every request
+    self.objs = {'methA': m1.K('A'), 'methB': m1.K('B')}
     self.redefined = None
     self.mods_src_uid = uid
 
+  def get(self, name):
+    if name in self.objs:
+      return self.objs[name].m
+    return self.fn[name]
+
   def code_label(self, name):
     return {'cloA': 'clo', 'cloB': 'clo', 'glob1': 'plain', 'glob2': 'plain', 'nodef': 'plain', 'loop1': 'lf', 'loop2': 'lf', 'lam': 'lam',
-            'redef': 'plain2'}[name]
+            'redef': 'plain2', 'methA': 'meth', 'methB': 'meth'}[name]
 
   def redefine(self):
     # a changed definition under the same name, file and line: different code object (constants differ)
@@ -176,16 +193,17 @@ def do_request(tr, counts, pools, req):
   from malt.core import converter
   from malt.impl import api
   kind, fname, olabel = req
-  fn = pools.fn[fname]
+  fn = pools.get(fname)
   before = counts.get('total', 0)
   api._TRANSPILER = tr
   opts = options(olabel)
   obs = []
   if kind == 'transform':
     cf, _, _ = tr.transform(fn, converter.ProgramContext(options=opts))
+    recv = (fn.__self__,) if hasattr(fn, '__self__') else ()     # the transformed code of a method takes the receiver explicitly
     for a in ARGS:
       try:
-        obs.append(('ret', cf(*a)))
+        obs.append(('ret', cf(*(recv + a))))
       except TypeError:
         obs.append(('TypeError',))
   elif kind == 'wrapper':
@@ -210,6 +228,7 @@ GROUPS = {
     'defaults': ['loop1', 'loop2'],
     'lambda': ['lam'],
     'redefine': ['glob1', 'redef'],
+    'methods': ['methA', 'methB'],
 }
 
 
@@ -269,7 +288,7 @@ def replay(history, uid, forget=None):
       if fname == 'redef' and 'redef' not in pools.fn:
         pools.redefine()      # the definition changes now: same name, file and line, different body
       key = (pools.code_label(fname), OPT_CLASS[ol] if kind != 'wrapper' else ('A' if ol in ('O1', 'O1b') else 'B'))
-      want = expected_results(pools.fn[fname])
+      want = expected_results(pools.get(fname))
       try:
         got, ntrans = do_request(tr, counts, pools, req)
       except Exception as e:  # pylint:disable=broad-except
@@ -405,7 +424,7 @@ def check_sched(item, drop_recheck=False):
       def run():
         out = []
         for kind, fname, ol in reqs:
-          fn = pools.fn[fname]
+          fn = pools.get(fname)
           if kind == 'transform':
             cf, mod, _ = tr.transform_function(fn, converter.ProgramContext(options=options(ol)))
             out.append((fname, ol, cf, mod))
@@ -433,7 +452,7 @@ def check_sched(item, drop_recheck=False):
       mods = {}
       for t, out in results.items():
         for fname, ol, cf, mod in out:
-          fn = pools.fn[fname]
+          fn = pools.get(fname)
           if trkind == 'identity' or mod is None:
             got = cf(5) if callable(cf) else cf
             want = fn(5)
